@@ -108,6 +108,15 @@ func cqBytes(s string) string {
 
 func cqList(items []string) string { return "[" + strings.Join(items, "; ") + "]" }
 
+// cqTyped is cqList with the element type spelled out when the list is empty (a shard whose lists are all empty has
+// nothing to infer the type from)
+func cqTyped(items []string, ty string) string {
+	if len(items) == 0 {
+		return "(@nil " + ty + ")"
+	}
+	return cqList(items)
+}
+
 func cqBytesList(ss []string) string {
 	items := make([]string, len(ss))
 	for i, s := range ss {
